@@ -55,6 +55,19 @@ def special_cases(rng):
             pool = [hdr.SOMEIPSDLoadBalancingOption(i, i) for i in range(40)]
             e = hdr.SOMEIPSDEntry(options_1=tuple(pool[:n1]), options_2=tuple(pool[20:20 + n2]), **base)
             out.append(hdr.SOMEIPSDHeader(entries=(e,)))
+    # a run of 16 / 17 options that is ALREADY present in the shared array, spread over the (short) runs of earlier entries
+    pool = [hdr.SOMEIPSDLoadBalancingOption(i, 100 + i) for i in range(40)]
+    for n in (15, 16, 17):
+        for cut in (1, n // 2, n - 1):
+            for where in ("first", "second"):
+                ea = hdr.SOMEIPSDEntry(options_1=tuple(pool[:cut]), options_2=tuple(pool[cut:n]), **codec.rand_entry_fields(rng))
+                long_run = tuple(pool[:n])
+                eb = hdr.SOMEIPSDEntry(options_1=long_run if where == "first" else (), options_2=long_run if where == "second" else (),
+                                       **codec.rand_entry_fields(rng))
+                ec = hdr.SOMEIPSDEntry(options_1=tuple(pool[1:n]) if where == "first" else tuple(pool[20:22]),
+                                       options_2=tuple(pool[1:n]) if where == "second" else (), **codec.rand_entry_fields(rng))
+                out.append(hdr.SOMEIPSDHeader(entries=(ea, eb)))
+                out.append(hdr.SOMEIPSDHeader(entries=(ea, ec, eb)))
     for total in (200, 240, 255, 256, 270, 285, 300):        # distinct options needed
         pool = [hdr.SOMEIPSDLoadBalancingOption(i, 7) for i in range(total)]
         es = [hdr.SOMEIPSDEntry(options_1=tuple(pool[i:i + 15]), options_2=(), **codec.rand_entry_fields(rng)) for i in range(0, total, 15)]
